@@ -43,12 +43,35 @@ impl FlightIngestService {
         })?
         .map_err(|e| crate::Error::InvalidSchema(format!("Flight IPC decode failed: {e}")))?;
 
+        // A batch can only be stored if it has the timestamp column the flush path needs.
+        // Refuse anything else before it reaches the buffer: a batch without columns (or with
+        // only Null-typed ones) carries no data buffers, so a few hundred bytes can declare
+        // billions of rows, which the Parquet writer then splits recursively until the
+        // stack overflows.
+        for batch in &batches {
+            Self::check_storable(batch)?;
+        }
+
         let mut total_rows = 0u64;
         for batch in batches {
             total_rows += batch.num_rows() as u64;
             self.ingester.write(batch).await?;
         }
         Ok(total_rows)
+    }
+
+    /// A batch is storable if it has a `timestamp` column of a type the ingester can flush
+    fn check_storable(batch: &RecordBatch) -> Result<()> {
+        use arrow_schema::{DataType, TimeUnit};
+        match batch.column_by_name("timestamp").map(|c| c.data_type()) {
+            Some(DataType::Int64) | Some(DataType::Timestamp(TimeUnit::Nanosecond, _)) => Ok(()),
+            Some(other) => Err(crate::Error::InvalidSchema(format!(
+                "Timestamp column must be Timestamp(Nanosecond) or Int64, got {other:?}"
+            ))),
+            None => Err(crate::Error::InvalidSchema(
+                "Missing timestamp column".to_string(),
+            )),
+        }
     }
 }
 
